@@ -1,0 +1,8 @@
+//go:build verif
+
+package network
+
+// Verification hooks for property C11 (build tag `verif`): read-only accessors. Add-only.
+
+// VInputs reads Network.inputs
+func VInputs(n *Network) []*NNode { return n.inputs }
